@@ -1,9 +1,28 @@
 (** C16 — a regex delimiter splits at its matches and is replaced literally.  Statements only.
     The theorems are about the modelled regex family (literal characters, ASCII classes,
-    concatenation, alternation, '+', groups; leftmost-first); that the regex crate computes
-    the same matches on this family is what the correspondence run checks. *)
+    concatenation, alternation, '+', groups; leftmost-first), whose engine is proved sound
+    and complete for the declarative language of the family (Spec/RegexLang.v); that the
+    regex crate computes the same matches on this family is what the correspondence run checks. *)
 From TucModel Require Import Base.Bytes Base.ListX Model.Bounds Model.Scan Model.Regex Model.Opt Model.CutStr
-     Proofs.C06 Proofs.ScanSplit Proofs.C12 Proofs.C16.
+     Spec.RegexLang Proofs.C06 Proofs.ScanSplit Proofs.C12 Proofs.C16 Proofs.C16Sem.
+
+(** the engine against the language of the family: what it reports at the head of a text is
+    a word of the language, and it reports nothing only when no prefix of the text is one *)
+Theorem C16_engine_is_sound :
+  forall (r : re) (l : bytes) (n : nat), match_len r l = Some n -> n <= length l /\ re_lang r (firstn n l).
+Proof. exact match_len_some. Qed.
+
+Theorem C16_engine_is_complete :
+  forall (r : re) (l : bytes), match_len r l = None -> forall u s', l = u ++ s' -> ~ re_lang r u.
+Proof. exact match_len_none. Qed.
+
+(** find_iter: the matches are the successive leftmost non-overlapping ones - each reported
+    match is a word of the language, it starts at the first position after the previous
+    match at which any word of the language starts ([scan_ok]: positions passed over carry
+    the proof that no word starts there), and scanning resumes at its end *)
+Theorem C16_matches_are_the_leftmost_nonoverlapping_ones :
+  forall (r : re) (l : bytes), scan_ok r 0 0 l (re_find_iter r l).
+Proof. exact re_find_iter_spec. Qed.
 
 (** matches are sorted, non-overlapping, non-empty and inside the record *)
 Theorem C16_matches_are_well_formed :
@@ -40,3 +59,11 @@ Print Assumptions C16_fields_and_matches_tile_the_record.
 Print Assumptions C16_greedy_fields_tile_the_record.
 Print Assumptions C16_tiling_for_any_matcher.
 Print Assumptions C16_no_index_out_of_range.
+Print Assumptions C16_engine_is_sound.
+Print Assumptions C16_engine_is_complete.
+Print Assumptions C16_matches_are_the_leftmost_nonoverlapping_ones.
+
+(** non-vacuity: ',|;;' on  a,;;b  : matches at 1..2 and 2..4 *)
+Example C16_alternation_example :
+  re_find_iter (RAlt (RByte 44) (RCat (RByte 59) (RByte 59))) [97;44;59;59;98]%N = [(1, 2); (2, 4)].
+Proof. reflexivity. Qed.
